@@ -17,8 +17,8 @@ fn fixture_text() -> String {
     format!(
         r#"
 interface MBase {{ mb(p: Int, q: [String!]): MBase mv: [Int!]! }}
-interface MMid implements MBase {{ mb(p: Int, q: [String!]): MBase mv: [Int!]! mm: MUni }}
-type MObj implements MMid & MBase {{ mb(p: Int, q: [String!]): MObj mv: [Int!]! mm: MObj mo(a: MIn, e: MEnum = MA): MScalar }}
+interface MMid implements MBase {{ mb(p: Int, q: [String!], r: Int! = 1): MBase mv: [Int!]! mm: MUni }}
+type MObj implements MMid & MBase {{ mb(p: Int, q: [String!], r: Int! = 1): MObj mv: [Int!]! mm: MObj mo(a: MIn, e: MEnum = MA): MScalar }}
 type MOther {{ x: Int }}
 union MUni = MObj | MOther
 enum MEnum {{ MA MB }}
@@ -962,6 +962,37 @@ fn m_impl_extra_required_arg(c: &mut Choices, d: &mut Document) -> &'static str 
     "impl.extraRequiredArgument"
 }
 
+/// An implementer's argument that is additional for SOME implemented interface and optional only
+/// because of its default value loses the default: it is then a required additional argument for that
+/// interface (even though a more specific interface declares it too).
+fn m_impl_extra_arg_default_dropped(c: &mut Choices, d: &mut Document) -> &'static str {
+    let mut cands: Vec<(String, String, String)> = vec![];
+    for (t, i) in impl_pairs(d) {
+        let Some(tdi) = d.defs.iter().position(|x| matches!(x, Definition::Type(td) if td.name == t && !td.is_ext)) else { continue };
+        for f in ty_at(d, tdi).fields.clone() {
+            let Some((idi, ifi)) = find_field(d, &i, &f.name) else { continue };
+            let iargs: Vec<String> = ty_at(d, idi).fields[ifi].args.iter().map(|a| a.name.clone()).collect();
+            for a in &f.args {
+                if !iargs.contains(&a.name) && a.ty.is_non_null() && a.default.is_some() {
+                    cands.push((t.clone(), f.name.clone(), a.name.clone()));
+                }
+            }
+        }
+    }
+    let Some((t, f, a)) = at(c, &cands) else {
+        return "neutral.noop";
+    };
+    let Some((di, fi)) = find_field(d, &t, &f) else {
+        return "neutral.noop";
+    };
+    for x in ty_at_mut(d, di).fields[fi].args.iter_mut() {
+        if x.name == a {
+            x.default = None;
+        }
+    }
+    "impl.extraArgumentDefaultDropped"
+}
+
 fn m_impl_transitive_missing(c: &mut Choices, d: &mut Document) -> &'static str {
     // (type, via, missing): type implements via, via implements missing
     let mut cands = vec![];
@@ -1597,6 +1628,7 @@ const MUTATORS: &[(M, u32)] = &[
     (m_impl_arg_missing, 3),
     (m_impl_arg_type, 5),
     (m_impl_extra_required_arg, 3),
+    (m_impl_extra_arg_default_dropped, 3),
     (m_impl_transitive_missing, 3),
     (m_impl_self, 2),
     (m_impl_non_interface, 4),
